@@ -1,33 +1,50 @@
 (* C08 — model of append/rolling_file/mod.rs (RollingFileAppender::append, get_writer,
    RollingFileAppenderBuilder::build, LogFile::roll) and policy/compound/mod.rs
-   (CompoundPolicy::process) on top of Model/Window.v (the roller, with the
-   rotate_step hook as fault position and crash images).  Executable definitions only.
+   (CompoundPolicy::process) on top of Model/Window.v (the roller as a list of small
+   steps, with the rotate_step hook as fault position and crash images).
+   Executable definitions only.
 
    External things and how they appear here:
    * file system                 -> Common/FSModel.v;
    * BufWriter + flush per record -> every record is on disk in full when append returns
                                     (writes are whole: encode then flush, no OS write error);
    * LogWriter.len               -> equals the size of the active file (it is initialised from
-                                    the file's metadata, or 0 after a truncating open, and
-                                    advanced by every write; no other process writes the file),
-                                    so the model reads the size from the file system;
+                                    the file's metadata, or 0 after the truncating open of the
+                                    builder, and advanced by every write; no other process
+                                    writes the file), so the model reads it from the file system;
    * Mutex                       -> one appender call at a time (sequential histories);
    * encoder                     -> a record is the byte string the encoder produces;
-   * trigger                     -> fires iff len > limit (SizeTrigger, post-process) or the same
-                                    criterion evaluated before the write (a pre-processing trigger);
-   * process death               -> the appender state is dropped, the directory stays as the
-                                    crash image; a new appender is built on it (Restart). *)
+   * trigger                     -> an ORACLE carried by every append operation:
+                                    `fire : N -> bool`, the trigger's answer as a function of
+                                    the length it is shown.  SizeTrigger is fun len => limit <? len;
+                                    a time / on-start-up / user trigger at a given moment is some
+                                    other function.  `c_pre` = Trigger::is_pre_process();
+   * a failing file-system step   -> `fault : option nat` of the operation: the k-th step of the
+                                    rotation performed by this append returns Err without
+                                    touching the directory (the rotate_step hook's contract;
+                                    a real EISDIR/EACCES on a rename behaves the same way);
+   * process death               -> the appender state is dropped, the directory stays as it is
+                                    (the crash image); a new appender is built on it (HRestart).
+                                    Dying at hook call k leaves exactly the directory that a
+                                    fault at step k leaves (Proofs/RollFault.v,
+                                    crash_image_is_fault_state). *)
 From Coq Require Import List NArith Bool.
 Import ListNotations.
 From L4 Require Import Common.FSModel Model.Window.
 Local Open Scope N_scope.
 
-Record cfg := { c_base : N; c_count : N; c_limit : N; c_pre : bool }.
+Record cfg := { c_base : N; c_count : N; c_pre : bool }.
 
 (* appender: the directory and `writer.is_some()` *)
 Record ast := { afs : fs; wopen : bool }.
 
 Inductive ack := AOk | AErr | APanic.
+
+(* what an operation did to the record stream (for the specification only) *)
+Inductive ev :=
+| EvWrite (r : bytes)   (* the record's bytes were appended to the active file *)
+| EvRolled              (* a rotation ran to completion *)
+| EvTrunc.              (* a builder opened the active file with truncate(true) *)
 
 Section Appender.
   Variable name : N -> path.
@@ -42,7 +59,8 @@ Section Appender.
     | None => write file [] f
     end.
 
-  (* get_writer: reopen only when the writer is None; after build `append` is always true *)
+  (* get_writer: reopen only when the writer is None; after build `append` is always true,
+     so a reopen never truncates (fix c358786) *)
   Definition get_writer (s : ast) : ast :=
     if wopen s then s else {| afs := ensure (afs s); wopen := true |}.
 
@@ -57,58 +75,60 @@ Section Appender.
     end.
 
   (* CompoundPolicy::process: trigger, log.roll() (writer := None), roller.roll(path)?
-     third component: the directory as seen at each rotate_step hook call *)
-  Definition process (fault : option nat) (s : ast) : ast * ack * list fs :=
-    if c_limit cf <? flen (afs s) then
+     result: state, outcome, "a rotation completed", the directory at each rotate_step call *)
+  Definition process (fire : N -> bool) (fault : option nat) (s : ast) : ast * ack * bool * list fs :=
+    if fire (flen (afs s)) then
       let imgs := if c_count cf =? 0 then []
                   else if u32_max1 <=? c_base cf + (c_count cf - 1) then []
                   else images cm fault (steps name (c_base cf) (c_count cf) file) (afs s) in
       match roll name cm fault (c_base cf) (c_count cf) file (afs s) with
-      | Done g => ({| afs := g; wopen := false |}, AOk, imgs)
-      | Failed g => ({| afs := g; wopen := false |}, AErr, imgs)
-      | Panicked => (s, APanic, imgs)
+      | Done g => ({| afs := g; wopen := false |}, AOk, true, imgs)
+      | Failed g => ({| afs := g; wopen := false |}, AErr, false, imgs)
+      | Panicked => (s, APanic, false, imgs)
       end
-    else (s, AOk, []).
+    else (s, AOk, false, []).
 
   (* encoder.encode(writer, record); writer.flush() *)
   Definition write_rec (r : bytes) (s : ast) : ast :=
     {| afs := FSModel.append file r (afs s); wopen := wopen s |}.
 
-  (* Append::append.  Result: state, acknowledgement, whether the record reached the
-     file, hook images *)
-  Definition append_rec (fault : option nat) (r : bytes) (s : ast) : ast * ack * bool * list fs :=
+  Definition rolled_ev (rolled : bool) : list ev := if rolled then [EvRolled] else [].
+
+  (* Append::append.  Result: state, what the caller sees, stream events, hook images *)
+  Definition append_rec (fire : N -> bool) (fault : option nat) (r : bytes) (s : ast)
+    : ast * ack * list ev * list fs :=
     let s1 := get_writer s in
     if c_pre cf then
-      match process fault s1 with
-      | (s2, AOk, imgs) => (write_rec r (get_writer s2), AOk, true, imgs)
-      | (s2, a, imgs) => (s2, a, false, imgs)
+      match process fire fault s1 with
+      | (s2, AOk, rolled, imgs) => (write_rec r (get_writer s2), AOk, rolled_ev rolled ++ [EvWrite r], imgs)
+      | (s2, a, _, imgs) => (s2, a, [], imgs)
       end
     else
-      match process fault (write_rec r s1) with
-      | (s2, a, imgs) => (s2, a, true, imgs)
+      match process fire fault (write_rec r s1) with
+      | (s2, a, rolled, imgs) => (s2, a, EvWrite r :: rolled_ev rolled, imgs)
       end.
 
   (* histories *)
   Inductive hop :=
-  | HAppend (r : bytes) (fault : option nat)
+  | HAppend (r : bytes) (fire : N -> bool) (fault : option nat)
   | HRestart (append_mode : bool).     (* drop the appender (process death or shutdown), build a new one *)
 
-  Definition step_hist (o : hop) (s : ast) : ast * ack * bool * list fs :=
+  Definition step_hist (o : hop) (s : ast) : ast * ack * list ev * list fs :=
     match o with
-    | HAppend r fault => append_rec fault r s
-    | HRestart m => (build m (afs s), AOk, false, [])
+    | HAppend r fire fault => append_rec fire fault r s
+    | HRestart m => (build m (afs s), AOk, if m then [] else [EvTrunc], [])
     end.
 
-  (* final state, and per operation (ack, written) *)
-  Fixpoint run_hist (ops : list hop) (s : ast) : ast * list (ack * bool) :=
+  (* final state, and per operation (ack, events); stops at a panic *)
+  Fixpoint run_hist (ops : list hop) (s : ast) : ast * list (ack * list ev) :=
     match ops with
     | [] => (s, [])
     | o :: rest =>
       match step_hist o s with
-      | (s1, a, w, _) =>
+      | (s1, a, e, _) =>
         match a with
-        | APanic => (s1, [(a, w)])
-        | _ => let (s2, l) := run_hist rest s1 in (s2, (a, w) :: l)
+        | APanic => (s1, [(a, e)])
+        | _ => let (s2, l) := run_hist rest s1 in (s2, (a, e) :: l)
         end
       end
     end.
